@@ -24,6 +24,8 @@ THEOREMS = [
     "PorepyVerif.C02.parseBin_eq_directBin",
     "PorepyVerif.C02.parse_eq_direct",
     "PorepyVerif.C02.evaluate_eq_direct",
+    "PorepyVerif.C02.evaluate_list_cache_transparent",
+    "PorepyVerif.C02.evaluate_list_eq_map",
     "PorepyVerif.C02.parse_val_noderiv",
     "PorepyVerif.C02.evaluate_val_noderiv",
     "PorepyVerif.C02.prev_leaf_is_stored",
@@ -46,25 +48,32 @@ RULE = ("one python expression (depth <= 4, thorough <= 5) per case over a rando
         "(variable / md-variable at current, previous time step k, previous iterate k; Scalar, DenseArray, SparseArray csr/csc, "
         "Projection, ProjectionList incl. empty, TimeDependentDenseArray, subdomain cell restriction/prolongation; raw float, "
         "ndarray, csr_matrix) on either side of + - * / ** @, unary minus, previous_timestep/previous_iteration of whole "
-        "sub-expressions, pp.ad.Function with polynomial bodies of one and two arguments; type-directed (sizes fit) with ~10 % "
+        "sub-expressions, pp.ad.Function and DiagonalJacobianFunction with polynomial bodies of one and two arguments, length-1 arrays "
+        "broadcast against vectors, 35 % of the cases evaluate a list of 2-3 operators sharing sub-expression objects in one call; "
+        "half of the cases create the sub-variables in an order different from the md-grid order; type-directed (sizes fit) with ~10 % "
         "ill-typed nodes (size mismatch with both sizes >= 2, wrong kinds) and shifts beyond the stored indices; values are small "
         "dyadic rationals, state entries non-zero. non-trivial = the expression has a binary node whose left operand parses to an "
         "ndarray/number and whose right operand parses to an AdArray, or a raw left operand, or a time/iterate shift; distinct = "
         "distinct (grid, expression) pairs")
 TRUSTED = [
     "modelled, not verified: numpy/scipy arithmetic on floats, 1-d arrays and sparse matrices (transcribed as list functions over "
-    "rationals); binary64 rounding (comparison of values and Jacobians with relative tolerance 1e-9)",
-    "outside the model (answered `unsupported` by the model, skipped in the comparison and counted): powers with non-integer "
-    "exponents and AdArray exponents (logarithm; the oracle does check those on the real code), 2-d dense results "
-    "(ndarray +/- sparse), spmatrix `*` as matrix product, ArraySlicer with pending operand (slicer as right operand of * / + - **, "
-    "slicer @ slicer), ndarray @ ndarray; divisions by zero (numpy inf/nan) are `div0` and skipped; numpy broadcasting of a "
-    "length-1 array against a longer one is not modelled (the model raises ValueError on unequal lengths; where the real code "
-    "returns a value instead and the expression contains an operand of length <= 1 the comparison is skipped)",
+    "rationals, including numpy's broadcasting of a length-1 array and scipy's rule that only the scalar 0 can be added to a "
+    "matrix); binary64 rounding (comparison of values and Jacobians with relative tolerance 1e-9)",
+    "real powers and logarithms (non-integer exponents, integer exponents beyond 64, AdArray exponents, c ** x) are uninterpreted "
+    "PARAMETERS of the model (PowFns: pow, log and their domains); every theorem holds for every interpretation, the chain rules "
+    "y x^(y-1) dx + x^y log x dy and c^x log c dx are the ones coded in AdArray.__pow__/__rpow__. The driver instantiates the "
+    "parameters with 'nowhere defined', so the correspondence skips those cases (answer `unsupported`); the oracle checks them on "
+    "the real code with numpy's pow/log",
+    "outside the model (`unsupported`, skipped and counted): 2-d dense results (ndarray +/- sparse), spmatrix `*` as matrix product, "
+    "ArraySlicer with pending operand (slicer as right operand of * / + - **, slicer @ slicer), ndarray @ ndarray, a float-valued "
+    "DiagonalJacobianFunction, InterpolatedFunction; divisions by zero (numpy inf/nan) are `div0`, non-finite results of the real "
+    "code (overflow) are skipped",
     "ArraySlicer._slice_matrix (CSR index arithmetic) is modelled as a row scatter, valid for distinct range indices (property C36); "
     "the dof layout EquationSystem.dofs_of is read from the real system (property C05); get/set_solution_values storage is "
     "modelled as global vectors per index",
-    "the parser's cache (identity-keyed dict of parsed leaves) is not modelled: leaves parse deterministically; bodies of "
-    "pp.ad.Function are harness code (polynomials evaluated with operand order AdArray-first where numpy would take over)",
+    "the parser's cache is modelled keyed by the leaf itself instead of the operator object's identity (a superset of the real "
+    "hits; equal leaves parse to equal values); bodies of pp.ad.Function / get_values of DiagonalJacobianFunction are harness code "
+    "(polynomials evaluated with operand order AdArray-first where numpy would take over)",
 ]
 EXPLANATION = ("FULL for the parser on the modelled arithmetic. Model = AdParser.evaluate/_evaluate_single with its operand flips, "
                "AdArray's methods as coded in forward_mode.py, python's dispatch of `l op r` on the parsed values, the Operator "
@@ -78,7 +87,9 @@ EXPLANATION = ("FULL for the parser on the modelled arithmetic. Model = AdParser
                "previous_timestep/previous_iteration of any expression yields such a tree (shiftTime/shiftIter_no_current), adding "
                "such a tree leaves the Jacobian unchanged (const_add_keeps_jacobian); the tree python builds for `c op x` with a "
                "number / ndarray / sparse matrix c on the left denotes `c op x` (directBin_add_comm, reverse_build, "
-               "reverse_build_parse). Correspondence compares, per case, the shape of the tree built by the real overloads with the "
+               "reverse_build_parse); evaluating a LIST of operators in one call with the shared cache of parsed leaves is evaluating "
+               "them one by one (evaluate_list_cache_transparent, evaluate_list_eq_map). Functions: pp.ad.Function (polynomial body) and "
+               "DiagonalJacobianFunction (values exact, Jacobian sum of multipliers times argument Jacobians). Correspondence compares, per case, the shape of the tree built by the real overloads with the "
                "model's `build`, and value + dense Jacobian (rel. tol 1e-9) or the error kind for derivative=True and False; the "
                "driver also re-checks parse = direct on every case. The oracle is independent of Lean: forward-mode rules written "
                "out in numpy/scipy (including real powers with logarithms) vs EquationSystem.evaluate, derivative=False vs True, "
@@ -209,9 +220,10 @@ class World:
 
     # -- python objects of an expression (real operators, built through the overloads)
     def build(self, e):
-        """python object of an expression; with case["share"] equal leaves are ONE object (so that the parser's
-        cache of parsed leaves is hit), otherwise every occurrence is a fresh object"""
-        if self.case.get("share") and e["k"] in ("scalar", "dense", "sparse", "proj", "plist", "td", "gridproj"):
+        """python object of an expression; with case["share"] equal sub-expressions (leaves in particular) are ONE
+        object, also across the operators of a list (so that the parser's cache of parsed leaves is hit), otherwise
+        every occurrence is a fresh object"""
+        if self.case.get("share") and e["k"] != "raw":
             import json
             key = json.dumps(e, sort_keys=True)
             if key not in self._leaf_memo:
@@ -258,9 +270,9 @@ class World:
         if k == "pi":
             return self.build(e["a"]).previous_iteration(e["steps"])
         if k == "f1":
-            return pp.ad.Function(_callable(e["f"]), "f")(self.build(e["a"]))
+            return _function(e)(self.build(e["a"]))
         if k == "f2":
-            return pp.ad.Function(_callable(e["f"]), "f")(self.build(e["a"]), self.build(e["b"]))
+            return _function(e)(self.build(e["a"]), self.build(e["b"]))
         raise RuntimeError(f"unknown node {k}")
 
     def _proj(self, p):
@@ -321,6 +333,22 @@ def _callable(f):
         y = args[1] if len(args) > 1 else args[0]
         return _feval(f, x, y)
     return func
+
+
+def _function(e):
+    """pp.ad.Function with the polynomial body e["f"], or — with e["diag"] = [m1] / [m1, m2] — a
+    DiagonalJacobianFunction whose values are that body applied to the plain values of the arguments"""
+    import porepy as pp
+    if "diag" not in e:
+        return pp.ad.Function(_callable(e["f"]), "f")
+    body = e["f"]
+
+    class _Diag(pp.ad.DiagonalJacobianFunction):
+        def get_values(self, *args):
+            plain = [a.val if isinstance(a, pp.ad.AdArray) else a for a in args]
+            return _feval(body, plain[0], plain[1] if len(plain) > 1 else plain[0])
+
+    return _Diag([fl(m) for m in e["diag"]], "g")
 
 
 # ----------------------------------------------------------------------------- canonical forms
@@ -424,7 +452,40 @@ def impl_run(case):
     if not isinstance(op, pp.ad.Operator):
         return {"build_err": "raw"}
     _tag_td(w, op)
-    return {"tree": tree_str(op), "d1": _evaluate(w, op, True), "d0": _evaluate(w, op, False)}
+    out = {"tree": tree_str(op), "d1": _evaluate(w, op, True), "d0": _evaluate(w, op, False)}
+    if case.get("extra"):
+        ops = _extra_ops(w, case)
+        if ops is None:
+            out["list_build_err"] = True
+        else:
+            out["l1"] = _evaluate_list(w, [op] + ops, True)
+            out["l0"] = _evaluate_list(w, [op] + ops, False)
+    return out
+
+
+def _extra_ops(w, case):
+    import porepy as pp
+    ops = []
+    for x in case["extra"]:
+        try:
+            o = w.build(x)
+        except Exception:
+            return None
+        if not isinstance(o, pp.ad.Operator):
+            return None
+        ops.append(o)
+    return ops
+
+
+def _evaluate_list(w, ops, deriv):
+    import warnings
+    with warnings.catch_warnings():
+        warnings.simplefilter("ignore")
+        with np.errstate(all="ignore"):
+            try:
+                return [canon(r) for r in w.es.evaluate(ops, derivative=deriv, state=w.state)]
+            except Exception as e:
+                return err_kind(e)
 
 
 def model_ops(case):
@@ -432,7 +493,10 @@ def model_ops(case):
     env = {"state": w.env_state(), "iter": case["iter"], "time": case["time"],
            "tdIter": [sum(td["iter"], []) for td in case["td"]],
            "tdTime": [[sum(pg, []) for pg in td["time"]] for td in case["td"]]}
-    return [{"op": "eval", "env": env, "expr": w.lean_expr(case["expr"])}]
+    op = {"op": "eval", "env": env, "expr": w.lean_expr(case["expr"])}
+    if case.get("extra"):
+        op["extra"] = [w.lean_expr(x) for x in case["extra"]]
+    return [op]
 
 
 def model_decode(outs, case):
@@ -486,13 +550,33 @@ def compare(impl, model, case):
         m, i = model[key], impl[key]
         if m.get("err") in SKIP:
             continue
-        if m.get("err") == "ValueError" and "err" not in i and _may_broadcast(case):
-            continue  # numpy broadcasts a length-1 array against a longer one; the model demands equal lengths
         if i.get("kind") == "nonfinite":
             continue  # binary64 overflow (or 0 * inf) in the real code: outside the rational model
         d = deep_compare(i, m, key, tol=TOL)
         if d:
             return d
+    if case.get("extra") and ("list_build_err" in model) != ("list_build_err" in impl):
+        return f"list: building the further operators: impl {'fails' if 'list_build_err' in impl else 'works'}, model {'fails' if 'list_build_err' in model else 'works'}"
+    for key in ("l1", "l0"):
+        if key not in model or key not in impl:
+            continue
+        m, i = model[key], impl[key]
+        if isinstance(m, dict):
+            if m.get("err") in SKIP:
+                continue
+            if m != i:
+                return f"{key}: impl {str(i)[:200]} vs model {m}"
+            continue
+        if isinstance(i, dict):
+            return f"{key}: impl {i} vs model list of {len(m)} values"
+        if len(i) != len(m):
+            return f"{key}: {len(i)} vs {len(m)} results"
+        for k, (ii, mm) in enumerate(zip(i, m)):
+            if ii.get("kind") == "nonfinite":
+                continue
+            d = deep_compare(ii, mm, f"{key}[{k}]", tol=TOL)
+            if d:
+                return d
     return None
 
 
@@ -542,7 +626,17 @@ def _obin(op, l, r):
             return OV("m", sps.csr_matrix(l.val / r.val))
         raise Skip()
     if l.kind == "v" and r.kind == "v" and len(l.val) != len(r.val):
-        raise Skip()
+        # numpy broadcasting of a length-1 constant: against another constant always, against an AdArray only where
+        # AdArray supports it (a +/- c, a ** c, c ** a); everything else is ill-typed for AdArray
+        one, other = (l, r) if len(l.val) == 1 else (r, l)
+        if len(one.val) != 1 or one.jac is not None:
+            raise Skip()
+        if other.jac is not None and not (op in ("add", "sub", "pow")):
+            raise Skip()
+        if other.jac is not None and op == "sub" and one is l:
+            pass
+        full = OV("v", np.full(len(other.val), one.val[0]))
+        l, r = (full, r) if one is l else (l, full)
     if l.kind == "s" and r.kind == "s":
         if op == "pow" and ((r.val != int(r.val) and l.val <= 0) or (l.val == 0 and r.val < 0)):
             raise Skip()
@@ -675,6 +769,18 @@ def _oeval(w, e, deriv):
     if k in ("f1", "f2"):
         x = _oeval(w, e["a"], deriv)
         y = _oeval(w, e["b"], deriv) if k == "f2" else x
+        if "diag" in e:
+            # values of the body on the plain values; Jacobian by definition m1*J(x) [+ m2*J(y)]
+            val = _ofunc(e["f"], OV(x.kind, x.val), OV(y.kind, y.val))
+            if val.kind != "v":
+                raise Skip()
+            args = [x, y] if k == "f2" else [x]
+            if all(a.jac is None for a in args):
+                return val
+            terms = [fl(m) * a.jac for a, m in zip(args, e["diag"]) if a.jac is not None]
+            if not terms or any(t.shape[0] != len(val.val) for t in terms):
+                raise Skip()
+            return OV("v", val.val, sum(terms[1:], terms[0]))
         return _ofunc(e["f"], x, y)
     raise Skip()
 
@@ -795,6 +901,10 @@ def _oracle(case):
                 r0 = w.es.evaluate(op, derivative=False, state=w.state)
             except Exception as e:
                 r0 = e
+    if case.get("extra"):
+        bad = _oracle_list(w, case, op, sig)
+        if bad:
+            return bad
     if any(isinstance(r, complex) or (isinstance(r, np.ndarray) and np.iscomplexobj(r)) for r in (r0, r1)):
         return None  # negative number to a fractional power: python switches to complex numbers
     if direct is not None:
@@ -832,6 +942,37 @@ def _oracle(case):
             return {"what": "Operator.value_and_jacobian / Operator.value differ from EquationSystem.evaluate", "key": f"operator-entry-differs:{sig}"}
     if isinstance(r1, pp.ad.AdArray) and not _has_current_var(case["expr"]) and r1.jac.nnz and np.any(_dense(r1.jac) != 0):
         return {"what": "an expression without current variables (only previous time steps / iterates and constants) has a non-zero Jacobian", "key": f"prev-has-derivative:{sig}"}
+    return None
+
+
+def _oracle_list(w, case, op, sig):
+    """evaluating several operators in one call = evaluating them one by one (the cache must be transparent)"""
+    import warnings
+    import porepy as pp
+    ops = _extra_ops(w, case)
+    if ops is None:
+        return None
+    ops = [op] + ops
+    for deriv in (True, False):
+        with warnings.catch_warnings():
+            warnings.simplefilter("ignore")
+            with np.errstate(all="ignore"):
+                try:
+                    singles = [w.es.evaluate(o, derivative=deriv, state=w.state) for o in ops]
+                except Exception:
+                    continue  # some operator fails on its own: the list call has to fail too, which the correspondence compares
+                try:
+                    together = w.es.evaluate(ops, derivative=deriv, state=w.state)
+                except Exception as e:
+                    return {"what": f"evaluate([..{len(ops)} operators..], derivative={deriv}) raises {type(e).__name__} although every operator evaluates on its own", "key": f"list-raises:{sig}"}
+        if len(together) != len(singles):
+            return {"what": "evaluate(list) returned a list of another length", "key": f"list-length:{sig}"}
+        for k, (a, b) in enumerate(zip(together, singles)):
+            ca, cb = canon(a), canon(b)
+            if "nonfinite" in (ca.get("kind"), cb.get("kind")) or ca.get("kind") == "complex":
+                continue
+            if deep_compare(ca, cb, tol=1e-12):
+                return {"what": f"operator {k} of a list evaluates differently in evaluate(list, derivative={deriv}) than on its own: {deep_compare(ca, cb, tol=1e-12)}", "key": f"list-differs:{sig}"}
     return None
 
 
@@ -876,6 +1017,11 @@ def gen_world(rng, tier):
     if intfs:
         vars_.append({"name": "lam", "cells": 1, "faces": 0, "grids": intfs})
     rng.shuffle(vars_)
+    # stratum: sub-variables created in md-grid order (even cases) or in a different order (odd cases), so that the
+    # dof blocks of an md-variable are not in grid order
+    if rng.random() < 0.5:
+        for v in vars_:
+            v["grids"] = rng.sample(v["grids"], len(v["grids"]))
     case = {"grids": grids, "vars": vars_}
     n = total_dofs(case)
     case["iter"] = [rvec(rng, n, 0.0) for _ in range(rng.choice([1, 2, 3, 3, 4]))]
@@ -993,6 +1139,8 @@ class Gen:
             return self.vec_leaf(n)
         if r.random() < self.bad:
             return self.ill(n, depth)
+        if r.random() < 0.06:
+            return self.broadcast(n, depth)
         p = r.random()
         if p < 0.34:  # vector op vector
             op = r.choice(["add", "sub", "mul", "div", "add", "sub", "mul"])
@@ -1035,9 +1183,31 @@ class Gen:
             steps = r.choice([1, 1, 2]) if r.random() < 0.95 else 0
             return {"k": r.choice(["pt", "pi"]), "steps": steps, "a": self.vec(n, depth - 1)}
         if r.random() < 0.5:
-            return {"k": "f1", "f": self.fexpr(2, False), "a": self.vec(n, depth - 1)}
+            e = {"k": "f1", "f": self.fexpr(2, False), "a": self.vec(n, depth - 1)}
+            if r.random() < 0.35:
+                e["diag"] = [rv(r, 0.1)]
+            return e
         b = self.vec(n, depth - 1) if r.random() < 0.7 else self.scalar(0)
-        return {"k": "f2", "f": self.fexpr(2, True), "a": self.vec(n, depth - 1), "b": b}
+        e = {"k": "f2", "f": self.fexpr(2, True), "a": self.vec(n, depth - 1), "b": b}
+        if r.random() < 0.35:
+            e["diag"] = [rv(r, 0.1)] if r.random() < 0.25 else [rv(r, 0.1), rv(r, 0.1)]
+        return e
+
+    def broadcast(self, n, depth):
+        """a length-1 array against a vector of length n (numpy broadcasts; AdArray accepts it for a +/- c, a ** c, c ** a)"""
+        r = self.rng
+        q = r.random()
+        if q < 0.5:
+            one = {"k": "dense", "v": [rv(r, 0.0) if r.random() < 0.5 else str(r.choice([1, 2, 2, 3]))]}
+        elif q < 0.8 or 1 not in self.vec_leaves:
+            one = {"k": "raw", "r": {"k": "arr", "v": [rv(r, 0.0)]}}
+        else:
+            one = self.vec_leaf(1)
+        op = r.choice(["add", "sub", "add", "sub", "pow", "mul", "div"])
+        other = self.vec(max(n, 2), depth - 1)
+        if one["k"] == "raw" and other["k"] == "raw":
+            other = self.vec_leaf(max(n, 2))
+        return {"k": "bin", "op": op, "a": other, "b": one} if r.random() < 0.55 else {"k": "bin", "op": op, "a": one, "b": other}
 
     def grid_restr(self, n):
         """cell restriction / prolongation among the subdomains whose result has n rows"""
@@ -1126,6 +1296,20 @@ def gen_case(rng, tier):
             break
     case["expr"] = e
     case["share"] = rng.random() < 0.5
+    if rng.random() < 0.35:  # further operators for ONE evaluate call, sharing sub-expressions with the first
+        subs = [n for n in _nodes(e) if n["k"] != "raw"]
+        extra = []
+        for _ in range(rng.randint(1, 2)):
+            q = rng.random()
+            x = rng.choice(subs)
+            if q < 0.35:
+                extra.append(x)
+            elif q < 0.75:
+                y = g.scalar(0) if rng.random() < 0.5 else rng.choice(subs)
+                extra.append({"k": "bin", "op": rng.choice(["add", "mul", "sub"]), "a": x, "b": y})
+            else:
+                extra.append(g.vec(g.size(), 1))
+        case["extra"] = [x for x in extra if not _has_raw_pair(x)]
     return case
 
 
@@ -1181,6 +1365,8 @@ def stats(cases, impl_outs):
                     raws["left-" + n["a"]["r"]["k"]] += 1
                 if n["b"]["k"] == "raw":
                     raws["right-" + n["b"]["r"]["k"]] += 1
+            if n["k"] in ("f1", "f2") and "diag" in n:
+                kinds["diagonal-jacobian-function"] += 1
         if isinstance(o, dict):
             if "build_err" in o:
                 res1["build:" + o["build_err"]] += 1
@@ -1199,5 +1385,8 @@ def stats(cases, impl_outs):
     return {"oracle_has_direct_value": verdicts, "node_kinds": dict(kinds), "operations": dict(ops), "raw_operands": dict(raws), "derivative_true": dict(res1),
             "derivative_false": dict(res0), "use_state": sum(1 for c in cases if c["use_state"]),
             "shared_leaf_objects": sum(1 for c in cases if c.get("share")),
+            "list_evaluations": sum(1 for c in cases if c.get("extra")),
+            "subvariables_created_out_of_grid_order": sum(1 for c in cases if any(v["grids"] != sorted(v["grids"]) for v in c["vars"])),
+            "length1_operands": sum(1 for c in cases for n in _nodes(c["expr"]) if (n["k"] == "dense" and len(n["v"]) == 1) or (n["k"] == "raw" and n["r"]["k"] == "arr" and len(n["r"]["v"]) == 1)),
             "subdomains": dict(Counter(sum(1 for g in c["grids"] if g["kind"] == "sub") for c in cases)),
             "interfaces": dict(Counter(sum(1 for g in c["grids"] if g["kind"] == "intf") for c in cases))}
